@@ -12,8 +12,19 @@ static std::string toks_json(const std::vector<std::string> &v) { std::string s 
 static char *blk(const std::vector<unsigned char> &d, bool term) { char *p = (char *)malloc(d.size() + (term ? 1 : 0) ? d.size() + (term ? 1 : 0) : 1); memcpy(p, d.data(), d.size()); if (term) p[d.size()] = 0; return p; }
 // shell handlers log what they were given
 static std::string h_name; static std::vector<std::string> h_argv; static int h_calls;
-#define H(nm) static int m_##nm(int argc, char **argv) { ++h_calls; h_name = #nm; h_argv.assign(argv, argv + argc); return 7; } \
-              static int r_##nm(int argc, char **argv, char *, int) { ++h_calls; h_name = #nm; h_argv.assign(argv, argv + argc); return 7; }
+// nested dispatch ("<fn>_nested"): the handler of the outer line dispatches a second line through the same shell (what a macro /
+// repeat / alias command does) and then reads its own argv again - the tokens it was given must still be there
+static std::string h_nest_fn; static std::vector<unsigned char> h_nest_line; static int h_depth;
+static std::string h_in_name; static std::vector<std::string> h_in_argv, h_after;
+static void nested_dispatch();
+static int h_common(const char *nm, int argc, char **argv) {
+    ++h_calls;
+    if (h_depth > 0) { h_in_name = nm; h_in_argv.assign(argv, argv + argc); return 7; }
+    h_name = nm; h_argv.assign(argv, argv + argc);
+    if (!h_nest_fn.empty()) { ++h_depth; nested_dispatch(); --h_depth; h_after.assign(argv, argv + argc); }
+    return 7; }
+#define H(nm) static int m_##nm(int argc, char **argv) { return h_common(#nm, argc, argv); } \
+              static int r_##nm(int argc, char **argv, char *, int) { return h_common(#nm, argc, argv); }
 H(cmd) H(a) H(ab) H(help)
 static const struct mshell_command mtab1[] = {{"cmd", m_cmd, "c"}, {"a", m_a, 0}, {0, 0, 0}};
 static const struct mshell_command mtab2[] = {{"ab", m_ab, 0}, {"help", m_help, "h"}, {0, 0, 0}};
@@ -23,6 +34,10 @@ static const struct rshell_command rtab1[] = {{"cmd", r_cmd, "c"}, {"a", r_a, 0}
 static const struct rshell_command rtab2[] = {{"ab", r_ab, 0}, {"help", r_help, "h"}, {0, 0, 0}};
 static const struct rshell_command rtab_all[] = {{"cmd", r_cmd, "c"}, {"a", r_a, 0}, {"ab", r_ab, 0}, {"help", r_help, "h"}, {0, 0, 0}};
 static const struct rshell_command_table rtabs[] = {{rtab1, 0}, {rtab2, 0}, {0, 0}};
+static void nested_dispatch() { char *p = blk(h_nest_line, true); int ret = -99;
+    if (h_nest_fn == "mshell") mshell_execute(p, mtab_all, &ret); else if (h_nest_fn == "mshell_tables") mshell_tables_execute(p, mtabs, &ret);
+    else if (h_nest_fn == "rshell") rshell_execute(p, rtab_all, &ret, 0, 0, 0); else rshell_tables_execute(p, rtabs, &ret, 0, 0);
+    free(p); }
 int main(int argc, char **argv) {
     return run(argc, argv, [&](const std::vector<std::string> &t) {
         if (t[0] == "R") { Ev e("Reset"); e.end(); return; }
@@ -40,6 +55,13 @@ int main(int argc, char **argv) {
         else if (fn == "argv" || fn == "argv_n") { bool term = fn == "argv"; char *p = blk(s, term); char **av = (char **)malloc(sizeof(char *) * (n ? n : 1)); int ac;
             if (term) ac = argvc_internal_split(p, av, (int)n); else ac = argvc_internal_split_n(p, (int)s.size(), av, (int)n);
             std::vector<long long> st; for (int i = 0; i < ac && i < n; ++i) st.push_back(av[i] - p); e.i("argc", ac).ints("starts", st).bytes("image", p, s.size()); free(av); free(p); }
+        else if (fn.size() > 7 && fn.compare(fn.size() - 7, 7, "_nested") == 0) { std::string base = fn.substr(0, fn.size() - 7);
+            char *p = blk(s, true); h_calls = 0; h_name = ""; h_argv.clear(); h_in_name = ""; h_in_argv.clear(); h_after.clear(); h_nest_fn = base; h_nest_line = a; h_depth = 0; int ret = -99; int rc;
+            if (base == "mshell") rc = mshell_execute(p, mtab_all, &ret); else if (base == "mshell_tables") rc = mshell_tables_execute(p, mtabs, &ret);
+            else if (base == "rshell") rc = rshell_execute(p, rtab_all, &ret, 0, 0, 0); else if (base == "rshell_tables") rc = rshell_tables_execute(p, rtabs, &ret, 0, 0); else { fprintf(stderr, "bad fn %s\n", fn.c_str()); exit(3); }
+            h_nest_fn = "";
+            e.i("calls", h_calls).bytes("name", h_name.data(), h_name.size()).raw("argvs", toks_json(h_argv)).raw("argvs_after", toks_json(h_after))
+             .bytes("in_name", h_in_name.data(), h_in_name.size()).raw("in_argvs", toks_json(h_in_argv)).i("rc", rc).i("hret", ret); free(p); }
         else if (fn == "mshell" || fn == "mshell_tables" || fn == "rshell" || fn == "rshell_tables") { char *p = blk(s, true); h_calls = 0; h_name = ""; h_argv.clear(); int ret = -99; int rc;
             if (fn == "mshell") rc = mshell_execute(p, mtab_all, &ret); else if (fn == "mshell_tables") rc = mshell_tables_execute(p, mtabs, &ret);
             else if (fn == "rshell") rc = rshell_execute(p, rtab_all, &ret, 0, 0, 0); else rc = rshell_tables_execute(p, rtabs, &ret, 0, 0);
